@@ -23,7 +23,11 @@ CONFIGS = {
     "all": ["--all-features"],
     "minext": ["--no-default-features", "--features", "unsize,arc-swap"],
     "optnostd": ["--no-default-features", "--features", "serde,stable_deref_trait"],  # the optional integrations without std
+    # a 32-bit, non-x86 target (core and alloc built from the installed rust-src, offline): the arms of `cfg(target_pointer_width)`
+    # / `cfg(target_arch)` that the host build never compiles
+    "arm32": ["--no-default-features", "--target", "armv7-unknown-linux-gnueabihf", "-Zbuild-std=core,alloc"],
 }
+TARGET_OF = {"arm32": "armv7-unknown-linux-gnueabihf"}
 
 
 def repo():
@@ -127,7 +131,7 @@ def facts_path(config, da=False):
     assert config in CONFIGS
     drv = ensure_driver()
     tag = config + ("+da" if da else "")
-    key = "%s-%s-%s" % (tag, repo_hash(), driver_hash())
+    key = "%s-%s-%s-%s" % (tag, repo_hash(), driver_hash(), hashlib.sha256(" ".join(CONFIGS[config]).encode()).hexdigest()[:8])
     out = os.path.join(CACHE, "facts", key + ".json")
     if os.path.exists(out):
         return out
@@ -137,7 +141,7 @@ def facts_path(config, da=False):
         os.makedirs(os.path.dirname(out), exist_ok=True)
         tdir = os.path.join(CACHE, "target", tag)
         # cargo's freshness cache would skip the wrapper: forget triomphe's own fingerprints
-        fp = os.path.join(tdir, "debug", ".fingerprint")
+        fp = os.path.join(tdir, TARGET_OF[config], "debug", ".fingerprint") if config in TARGET_OF else os.path.join(tdir, "debug", ".fingerprint")
         if os.path.isdir(fp):
             for d in os.listdir(fp):
                 if d.startswith("triomphe-"):
